@@ -401,6 +401,8 @@ SPECS += srcspecs_small.SPECS_SMALL; HEADER += srcspecs_small.HEADER_SMALL
 from . import srcspecs_mem  # noqa: E402  (third extension, tag mem: MemoryTimeline / MutableTimeline)
 SPECS += srcspecs_mem.SPECS_MEM; HEADER = HEADER.rstrip("\n") + "\n" + srcspecs_mem.HEADER_MEM + "\n"  # noqa: E702
 
+from .srcspecs_met import SPECS_MET, HEADER_MET      # third extension: calgebra/metrics.py
+SPECS, HEADER = SPECS + SPECS_MET, HEADER + HEADER_MET
 
 def regenerate(repo: Path, coq_dir: Path):
     """Rewrite Gen/Source.v if its content changed.  Returns ({name: error}, text)."""
